@@ -77,6 +77,16 @@ impl Server {
         Ok(Self { state, handle })
     }
 
+    #[cfg(datacake_verif)]
+    /// Creates a server which is only reachable through the in-memory
+    /// verification transport, no socket is bound.
+    pub fn verif_in_memory(addr: SocketAddr) -> Self {
+        let state = ServerState::default();
+        crate::net::verif::register(addr, state.clone());
+        let handle = tokio::spawn(std::future::pending::<()>());
+        Self { state, handle }
+    }
+
     /// Adds a new service to the live RPC server.
     pub fn add_service<Svc>(&self, service: Svc)
     where
